@@ -1,0 +1,10 @@
+//go:build verif
+
+// Contracts for contract-based verification (/verif). Comment-only: with or without the
+// build tag "verif" this file adds nothing to the compiled package.
+
+package metering
+
+// the wall-clock reading behind MonoToEpoch is outside the model: its result is an arbitrary instant
+//@ func MonoToEpoch
+//@   modifies nothing
